@@ -1,5 +1,8 @@
+pub mod drive;
 pub mod ev;
+pub mod gen;
 pub mod props;
 pub mod real;
 pub mod refimpl;
+pub mod refside;
 pub mod rt;
